@@ -89,12 +89,13 @@ def split_reference(data, case):
     return [(i + 1, r.start, r.end, bytes(r)) for i, r in enumerate(auditok.split(data, **kw, **AC.audio_kwargs(case)))]
 
 
-def run_pipeline(case, data, tmpdir, script_override=None, decisions=None):
+def run_pipeline(case, data, tmpdir, script_override=None, decisions=None, strategy=None):
     """-> Result with everything the oracles need."""
     res = Result()
     res.case = case
     res.files = {}
-    strategy = S.Scripted(decisions) if decisions is not None else S.make(case["strategy"], case["sched_seed"], case["timeout_budget"])
+    if strategy is None:
+        strategy = S.Scripted(decisions) if decisions is not None else S.make(case["strategy"], case["sched_seed"], case["timeout_budget"])
     kw = {k: v for k, v in AC.split_kwargs(case).items() if k != "analysis_window"}
     stdout = io.StringIO()
     holder = {}
@@ -177,6 +178,33 @@ def run_pipeline(case, data, tmpdir, script_override=None, decisions=None):
     res.thread_states = [(st.name, st.status) for st in sched.states]
     res.os_alive = [st.name for st in sched.states if st.thread is not None and st.name != "main" and st.thread.is_alive()]
     return res
+
+
+def clean_dir(tmpdir):
+    import shutil
+
+    for f in os.listdir(tmpdir):
+        p = os.path.join(tmpdir, f)
+        shutil.rmtree(p) if os.path.isdir(p) else os.unlink(p)
+
+
+def small_pipeline_case(rng, nblocks, observers, saver, stop_after=None):
+    """A tiny pipeline for systematic schedule enumeration: few blocks, few threads."""
+    case = random_pipeline_case(rng, max_windows=nblocks, want_saver=saver)
+    case.update(rate=10, width=2, channels=1, block=2, w=0.2, partial=0, uc=None, thr=50.0, random_pcm=False,
+                min_len=1, max_len=2, max_sil=rng.choice((0, 1)), drop=False, strict=False)
+    v = [rng.choice((1, 1, 0)) for _ in range(nblocks)]
+    if not any(v):
+        v[0] = 1
+    case["v"] = v
+    case["observers"] = list(observers)
+    case["observer_timeouts"] = [0.2] * len(observers)
+    if saver:
+        case["saver"] = {"cache_size_sec": rng.choice((0.0001, 0.2, 100.0))}
+    case["stop"] = None if stop_after is None else {"after_reads": stop_after, "extra_steps": 0}
+    case["line_p"] = 0.0
+    case["strategy"] = "systematic"
+    return case
 
 
 def verdict_problems(res):
